@@ -946,7 +946,8 @@ def real_coherent(m: Any) -> bool:
             n = SingleMarker(m.name, cstr, swapped_name_value=sw)
         except Exception:  # noqa: BLE001
             return False
-        return n._key == m._key and n.constraint == m.constraint and type(n.constraint) is type(m.constraint) \
+        # the invariant of the theorems (`singleCoherent`): the CONSTRAINT is the one the key denotes
+        return n.constraint == m.constraint and type(n.constraint) is type(m.constraint) \
             and MC.cdump(n.constraint) == MC.cdump(m.constraint)
     return True
 
